@@ -81,7 +81,7 @@ fn num(x: &u8) -> Value {
 /// All function names known to the table (used by the exhaustive short-input driver).
 pub const ALL_FNS: &[&str] = &[
     "parse_tls_record_header", "parse_tls_plaintext", "parse_tls_encrypted", "parse_tls_raw_record",
-    "tls_parser", "tls_parser_many", "parse_tls_record_with_header",
+    "tls_parser", "tls_parser_many", "parse_tls_record_with_header", "fresh_parse_record",
     "parse_tls_message_changecipherspec", "parse_tls_message_alert", "parse_tls_message_applicationdata",
     "parse_tls_message_heartbeat", "parse_tls_message_handshake",
     "parse_tls_handshake_msg_hello_request", "parse_tls_handshake_client_hello", "parse_tls_handshake_msg_client_hello",
@@ -138,6 +138,22 @@ pub fn call(name: &str, a: &Args, i: &[u8]) -> Option<Out> {
             let pos = 5 + r.data.len() - rem2.len();
             Ok((&i[pos..], msgs))
         }, |v: &Vec<TlsMessage>| pj::msgs(v)),
+        "fresh_parse_record" => c!(i, |i| {
+            // one raw record through a FRESH stateful parser (for a record that needs no defragmentation this is two-step parsing)
+            let (_, r) = parse_tls_raw_record(i)?;
+            let n = r.data.len();
+            let mut p = TlsRecordsParser::default();
+            // (the result borrows the parser: it is projected while the parser is alive)
+            use tls_parser::nom::{error::make_error, Err as NErr};
+            let out = match p.parse_record(r) {
+                Ok((rem2, msgs)) => Ok((5 + n - rem2.len(), pj::msgs(&msgs))),
+                Err(NErr::Incomplete(nd)) => Err(NErr::Incomplete(nd)),
+                Err(NErr::Error(er)) => Err(NErr::Error(make_error(i, er.code))),
+                Err(NErr::Failure(er)) => Err(NErr::Failure(make_error(i, er.code))),
+            };
+            let (pos, v) = out?;
+            Ok((&i[pos..], v))
+        }, |v: &Value| v.clone()),
         // ---- messages
         "parse_tls_message_changecipherspec" => c!(i, parse_tls_message_changecipherspec, pj::msg),
         "parse_tls_message_alert" => c!(i, parse_tls_message_alert, pj::msg),
@@ -217,6 +233,12 @@ pub fn call(name: &str, a: &Args, i: &[u8]) -> Option<Out> {
                            |v: &(ServerDHParams, DigitallySigned)| json!({"content":pj::dh(&v.0),"sig":pj::signed(&v.1)})),
                 "ecdh" => c!(i, move |i| parse_content_and_signature(i, parse_ecdh_params, ext),
                              |v: &(ServerECDHParams, DigitallySigned)| json!({"content":pj::ecdh(&v.0),"sig":pj::signed(&v.1)})),
+                // a caller-supplied content parser that peeks at the byte after its value
+                "peek" => c!(i, move |i| parse_content_and_signature(i, |i: &[u8]| {
+                                 let (r, x) = tls_parser::nom::number::streaming::be_u8(i)?;
+                                 let (_, nx) = tls_parser::nom::number::streaming::be_u8(r)?;
+                                 Ok((r, (x, nx))) }, ext),
+                             |v: &((u8, u8), DigitallySigned)| json!({"content":{"first":(v.0).0,"next":(v.0).1},"sig":pj::signed(&v.1)})),
                 _ => c!(i, move |i| parse_content_and_signature(i, parse_ec_parameters, ext),
                         |v: &(ECParameters, DigitallySigned)| json!({"content":pj::ecparams(&v.0),"sig":pj::signed(&v.1)})),
             }
